@@ -106,6 +106,9 @@ pub enum PadForm {
     ForeignSigner,
     /// validly signed, then the counter was raised without re-signing
     InflatedCounter,
+    /// validly signed by the owner, then a holder replaced the encrypted content (by other data encrypted to
+    /// the owner's public key) while keeping address, counter and signature
+    SubstitutedContent,
 }
 
 /// A scratchpad of `owner` whose counter is `counter` (>= 1) carrying `data`.
@@ -130,6 +133,16 @@ pub fn scratchpad(
             for _ in 0..counter {
                 p.increment();
             }
+        }
+        PadForm::SubstitutedContent => {
+            for _ in 1..counter {
+                p.increment();
+            }
+            p.update_and_sign(Bytes::copy_from_slice(data), owner);
+            let forged = owner.public_key().encrypt([b"substituted by the holder: ".as_slice(), data].concat()).to_bytes();
+            let mut v = serde_json::to_value(&p).expect("pad to json");
+            v["encrypted_data"] = serde_json::to_value(Bytes::from(forged)).expect("bytes to json");
+            p = serde_json::from_value(v).expect("pad from json");
         }
         PadForm::InflatedCounter => {
             // signed for counter 1, then raised
@@ -192,6 +205,19 @@ pub fn register_op(reg: &SignedRegister, n: u32, signer: &bls::SecretKey) -> Reg
     let entry = n.to_le_bytes().to_vec();
     let (_hash, addr, op) = crdt.write(entry, &BTreeSet::new()).expect("crdt write");
     RegisterOp::new(addr, op, signer)
+}
+
+/// An op whose `source` is `named`'s public key while its signature was made by `signer`
+/// (what an adversarial peer can put on the wire; the fields are private, so it is forged through serde).
+pub fn forged_register_op(reg: &SignedRegister, n: u32, named: &bls::SecretKey, signer: &bls::SecretKey) -> RegisterOp {
+    let honest = register_op(reg, n, named);
+    let other = register_op(reg, n, signer);
+    let mut v = serde_json::to_value(&honest).expect("op to json");
+    let o = serde_json::to_value(&other).expect("op to json");
+    v["signature"] = o["signature"].clone();
+    let forged: RegisterOp = serde_json::from_value(v).expect("op from json");
+    assert!(forged != honest && forged.verify_signature(&named.public_key()).is_err());
+    forged
 }
 
 pub fn register_with_ops(base: &SignedRegister, ops: &[RegisterOp]) -> SignedRegister {
